@@ -272,6 +272,32 @@ func prepare() (string, error) {
 	if err := os.WriteFile(overlayPath, b, 0o644); err != nil {
 		return "", err
 	}
+	// the overlay of the free-running (-race) build: the same harnesses and runtime over the code as it is
+	// (real goroutines, channels, selects, locks, timers); only the files that dial use the in-memory network
+	light, err := rewrite.InstrumentLight(repoDir)
+	if err != nil {
+		return "", fmt.Errorf("light instrumentation failed: %v", err)
+	}
+	raceReplace := map[string]string{}
+	for k, v := range replace {
+		if _, instrumented := res.Files[k]; !instrumented {
+			raceReplace[k] = v
+		}
+	}
+	i := 0
+	for orig, content := range light.Files {
+		rel, _ := filepath.Rel(repoDir, orig)
+		dst := filepath.Join(work, "src", fmt.Sprintf("light_%03d_%s", i, strings.ReplaceAll(rel, "/", "__")))
+		i++
+		if err := os.WriteFile(dst, content, 0o644); err != nil {
+			return "", err
+		}
+		raceReplace[orig] = dst
+	}
+	b, _ = json.MarshalIndent(map[string]interface{}{"Replace": raceReplace}, "", " ")
+	if err := os.WriteFile(filepath.Join(work, "overlay-race.json"), b, 0o644); err != nil {
+		return "", err
+	}
 	os.WriteFile(filepath.Join(work, "ok"), []byte(time.Now().String()), 0o644)
 	fmt.Fprintf(os.Stderr, "[vcheck] instrumented %d files in %.1fs (%v)\n", len(res.Files), time.Since(t0).Seconds(), res.Stats)
 	return work, nil
@@ -291,7 +317,11 @@ func buildTestMode(work, pkg string, race bool) (string, error) {
 		return bin, nil
 	}
 	t0 := time.Now()
-	args := []string{"test", "-c", "-o", bin, "-overlay", filepath.Join(work, "overlay.json"), "-tags", "verif", "-vet=off"}
+	overlay := "overlay.json"
+	if race {
+		overlay = "overlay-race.json"
+	}
+	args := []string{"test", "-c", "-o", bin, "-overlay", filepath.Join(work, overlay), "-tags", "verif", "-vet=off"}
 	if race {
 		args = append(args, "-race")
 	}
@@ -508,10 +538,23 @@ func parseRaceLogs(prefix, scn string) []violation {
 			continue
 		}
 		for _, blk := range strings.Split(string(b), "WARNING: DATA RACE")[1:] {
+			// the two access stacks come first, separated by blank lines; of each the innermost frame in the
+			// repository's own (non-generated, non-harness) code names the access
 			var fns []string
-			for _, line := range strings.Split(blk, "\n") {
-				t := strings.TrimSpace(line)
-				if strings.HasPrefix(t, "github.com/samaritan-proxy/samaritan/") && !strings.Contains(t, "/verifrt/") && !strings.Contains(t, "zz_verif") {
+			for si, stack := range strings.Split(blk, "\n\n") {
+				if si >= 2 {
+					break
+				}
+				name := "<harness>"
+				lines := strings.Split(stack, "\n")
+				for li, line := range lines {
+					t := strings.TrimSpace(line)
+					if !strings.HasPrefix(t, "github.com/samaritan-proxy/samaritan/") || strings.Contains(t, "/verifrt/") || strings.Contains(t, "/pb/") {
+						continue
+					}
+					if li+1 < len(lines) && strings.Contains(lines[li+1], "zz_verif") {
+						continue // a frame of the harness
+					}
 					fn := strings.TrimPrefix(t, "github.com/samaritan-proxy/samaritan/")
 					if i := strings.Index(fn, "("); i > 0 && !strings.HasPrefix(fn[i:], "(*") {
 						fn = fn[:i]
@@ -519,11 +562,17 @@ func parseRaceLogs(prefix, scn string) []violation {
 					if i := strings.LastIndex(fn, "()"); i > 0 {
 						fn = fn[:i]
 					}
-					fns = append(fns, fn)
-					if len(fns) == 1 {
-						break
+					if i := strings.Index(fn, ".func"); i > 0 {
+						fn = fn[:i]
 					}
+					name = fn
+					break
 				}
+				fns = append(fns, name)
+			}
+			sort.Strings(fns)
+			if acceptedRace(fns) {
+				continue
 			}
 			sig := "data-race / " + strings.Join(fns, " vs ")
 			if seen[sig] {
@@ -537,6 +586,30 @@ func parseRaceLogs(prefix, scn string) []violation {
 		}
 	}
 	return out
+}
+
+// acceptedRace: unsynchronised accesses the repository makes on purpose and that the controlled scheduler
+// explores through access points (rewrite.RacyFields) instead of relying on their absence:
+//   - the slot table (upstream.slots, "it's safe in x86-64 platform") and the instances reachable from it,
+//     written by the refresh, read by the routing of every request;
+//   - the service configuration of the redis processor, swapped by a plain pointer write in config.Update and
+//     read by request goroutines (the configuration objects themselves are built by the caller of the update,
+//     in the race pass that is the harness).
+func acceptedRace(fns []string) bool {
+	if len(fns) != 2 {
+		return false
+	}
+	slots := map[string]bool{"proc/redis.(*upstream).chooseHost": true, "proc/redis.(*upstream).doSlotsRefresh": true, "proc/redis.parseClusterNodes": true, "proc/redis.parseClusterNodesLine": true}
+	if slots[fns[0]] && slots[fns[1]] {
+		return true
+	}
+	cfgReaders := map[string]bool{"proc/redis.(*compressFilter).Do": true, "proc/redis.(*compressFilter).Compress": true, "proc/redis.(*upstream).chooseHost": true, "proc/redis.(*upstream).createClient": true, "proc/redis.(*config).Raw": true, "proc/redis.(*config).Update": true}
+	for i := 0; i < 2; i++ {
+		if (fns[i] == "proc/redis.(*config).Update" || fns[i] == "<harness>") && cfgReaders[fns[1-i]] {
+			return true
+		}
+	}
+	return false
 }
 
 func tail(s string, n int) string {
